@@ -563,6 +563,44 @@ pub fn isolation_tag(kind: BackendKind, cfg: (i64, u32), executed: &[Op], v: &mu
     v.what.push_str(" [isolation: the same requests of this client alone, on a fresh server, are all answered correctly: another client's data made the difference]");
 }
 
+/// C12 grid: for every small configuration, every pair (snapshot age, versions since the snapshot) around the two thresholds
+/// of both measures (below the target, at it, just below / at one and a half times, well beyond): the urgency of the next
+/// AddVersion must be the maximum of the two.  Exercises in particular the cells where the two measures disagree.
+pub fn urgency_grid(kind: BackendKind, rep: &mut Report, budget: &mut dyn FnMut() -> bool) {
+    for &(d, n) in &[(3i64, 3u32), (5, 2), (7, 5), (1, 1), (14, 4)] {
+        let around = |t: i64| -> Vec<i64> {
+            let mut v = vec![0, t - 1, t, t * 3 / 2 - 1, t * 3 / 2, t * 2 + 1];
+            v.retain(|x| *x >= 0);
+            v.sort();
+            v.dedup();
+            v
+        };
+        for age in around(d) {
+            for since in around(n as i64) {
+                if !budget() {
+                    return;
+                }
+                let mut ops = vec![Op::Create(0), Op::AddVersion(0, IdSel::Nil, 0), Op::AddSnap(0, IdSel::Latest, 1)];
+                for i in 0..since as usize {
+                    ops.push(Op::AddVersion(0, IdSel::Latest, i % PAYLOADS.len()));
+                }
+                ops.push(Op::Age(0, age));
+                ops.push(Op::AddVersion(0, IdSel::Latest, 1));
+                let mut run = Run::new(kind, (d, n));
+                run.light = true;
+                let mut viol = None;
+                for op in &ops {
+                    if let Err(v) = run.step(op) {
+                        viol = Some(v);
+                        break;
+                    }
+                }
+                rep.absorb(run, viol);
+            }
+        }
+    }
+}
+
 /// exhaustive: every sequence of `depth` ops from the alphabet, after each seed prefix
 pub fn exhaustive(kind: BackendKind, cfg: (i64, u32), prefixes: &[Vec<Op>], depth: usize, two_clients: bool, rep: &mut Report, budget: &mut dyn FnMut() -> bool) {
     let alpha = alphabet(two_clients);
